@@ -290,6 +290,10 @@ func drawVersion(h *verifh.H, ids, targets []string, fam vFamily) *mVersion {
 		v.Refs["ns0:p1"] = []string{targets[1]}
 	case 3:
 		v.Refs["ns0:p1"] = []string{targets[0], targets[1]}
+	case 4:
+		v.Refs["ns0:p1"] = []string{targets[1], targets[0]} // same targets, other order: a different version
+	case 5:
+		v.Refs["ns0:p1"] = []string{targets[0], targets[0], targets[1]} // a target named twice
 	}
 	if fam.P2 && h.Choice("p2", 2) == 1 {
 		v.Refs["ns0:p2"] = []string{targets[1]}
@@ -318,8 +322,15 @@ type vHistory struct {
 func vNewHistory(h *verifh.H, dsn ...string) *vHistory {
 	hub := VerifNewHub(h)
 	hs := &vHistory{hub: hub, dss: map[string]*Dataset{}, g: newMGraph(dsn...), dsn: dsn}
+	// optionally the datasets are created with public namespaces (their meta-entities in
+	// core.Dataset then carry a publicNamespaces property, which the write path of core.Dataset
+	// treats specially)
+	var cfg *CreateDatasetConfig
+	if h.Param("publicNs", 0) == 1 && h.Choice("publicNs", 2) == 1 {
+		cfg = &CreateDatasetConfig{PublicNamespaces: []string{"http://example.com/pub/"}}
+	}
 	for _, n := range dsn {
-		ds, err := hub.Dsm.CreateDataset(n, nil)
+		ds, err := hub.Dsm.CreateDataset(n, cfg)
 		h.Assert(err == nil, "create dataset")
 		hs.dss[n] = ds
 	}
@@ -350,6 +361,27 @@ func (hs *vHistory) step(h *verifh.H, s int, fam vFamily, batch2, firstAny bool)
 		fam = vFamily{P1: 1, P2: false, Vals: 2, Del: true}
 	case 3:
 		fam = vFamily{P1: 4, P2: false, Vals: 1, Del: true}
+	case 4:
+		fam = vFamily{P1: 2, P2: false, Vals: 1, Del: true}
+	case 5:
+		fam = vFamily{P1: 5, P2: false, Vals: 1, Del: false}
+	case 6:
+		fam = vFamily{P1: 6, P2: false, Vals: 1, Del: true}
+	}
+	if h.Param("txn", 0) == 1 && len(hs.dsn) > 1 && h.Choice("asTxn", 2) == 1 {
+		// a transaction writing one version to each of the first two datasets
+		txn := &Transaction{DatasetEntities: map[string][]*Entity{}}
+		var vs []*mVersion
+		for _, dn := range hs.dsn[:2] {
+			v := drawVersion(h, ids, targets, fam)
+			vs = append(vs, v)
+			txn.DatasetEntities[dn] = []*Entity{mkEntity(v)}
+		}
+		h.Assert(hs.hub.Store.ExecuteTransaction(txn) == nil, "transaction accepted")
+		for k, dn := range hs.dsn[:2] {
+			hs.g.write(dn, []*mVersion{vs[k]})
+		}
+		return hs.dsn[0]
 	}
 	var batch []*mVersion
 	var ents []*Entity
